@@ -175,8 +175,13 @@ def step(st: St, op: tuple, dev: Dev):
         n = replace(st, slm=dmm_id, slm_chan=nm, slm_waiting=not st.global_pulse,
                     chans=_srt(st.chans + ((nm, dmm_id, False, True, False),)))
         return True, _add_bases(n, "ground-rydberg")
-    if k in ("add_v", "delay_v") and op[1] not in st.vars:
+    if k in ("add_v", "delay_v", "eom_pulse_v") and op[1] not in st.vars:
         return False, None  # the variable does not exist: the call cannot even be formed
+    if k == "eom_pulse_v":
+        c = st.chan(op[2])
+        if st.measured or c is None or not c[2]:
+            return False, None
+        return True, replace(st, empty=False, param=True)
     if k in ("add", "add_v"):
         name = op[2] if k == "add" else op[3]
         c = st.chan(name)
